@@ -305,9 +305,7 @@ def drive_atheris(ctx: Ctx) -> None:
 
 
 def _work_dir() -> str:
-    d = os.path.join(core.VERIF, ".work")
-    os.makedirs(d, exist_ok=True)
-    return d
+    return core.work_dir()
 
 
 PARTS: list[Part] = [
